@@ -12,7 +12,7 @@ LEAN_MODEL_TARGETS = ["drv_c09"]
 LEAN_PROOF_TARGETS = ["PyroProps.C09"]
 AUDIT_FILES = ["PyroModel/Lock.lean", "PyroModel/Instances.lean", "PyroModel/Gen/C09.lean", "PyroProofs/Lock.lean",
                "PyroProofs/Instances.lean", "PyroProps/C09.lean"]
-THEOREMS = ["Pyro.C09.C09_gen_tests", "Pyro.C09.C09_gen_shape", "Pyro.C09.C09_gen_lock", "Pyro.C09.C09_gen_conn",
+THEOREMS = ["Pyro.C09.C09_gen_tests", "Pyro.C09.C09_gen_shape", "Pyro.C09.C09_gen_lock", "Pyro.C09.C09_gen_conn", "Pyro.C09.C09_gen_daemon",
             "Pyro.C09.C09_gen_behavior", "Pyro.C09.C09_behavior_modes",
             "Pyro.C09.C09_single", "Pyro.C09.C09_single_partial", "Pyro.C09.C09_single_falsy_refuted",
             "Pyro.C09.C09_session", "Pyro.C09.C09_session_partial", "Pyro.C09.C09_session_falsy_refuted",
@@ -22,11 +22,14 @@ THEOREMS = ["Pyro.C09.C09_gen_tests", "Pyro.C09.C09_gen_shape", "Pyro.C09.C09_ge
             "Pyro.C09.C09_single_concurrent", "Pyro.Lock.atomic", "Pyro.Lock.book"]
 SUITES = ["history", "behavior", "race"]
 RULE = ("(a) histories: 1-4 registered classes (mode single/session/percall/undecorated/hand-set invalid; creator none/"
-        "callable/falsy-callable; truthiness via nothing/__bool__/__len__; __eq__ default/by-class/always-equal+unhashable), "
-        "1-4 connections, 1-24 events (open with/without keep_open, close, call carrying what the constructor/creator does "
-        "if run: ok truthy|falsy / wrong type / raises), run on the REAL daemon through _getInstance or through handleRequest "
+        "callable (needing the class argument / also callable without: default arg, *args, functools.partial, a class) /"
+        "falsy-callable; truthiness via nothing/__bool__/__len__; __eq__ default/by-class/always-equal+unhashable), "
+        "1-3 Daemon objects in the process serving the SAME classes (alive together, and shut down and replaced by a new Daemon "
+        "mid-history), 1-4 connections, 1-24 events (daemon restart, open with/without keep_open, close, call carrying what the "
+        "constructor/creator does if run: ok truthy|falsy / wrong type / raises ArithmeticError / raises a TypeError from its own "
+        "body always or on its first run only), run on the REAL daemons through _getInstance or through handleRequest "
         "with a real INVOKE message, vs the Lean model line by line (result of every call: instance by creation order, "
-        "created?, creator invoked?; final tables); (b) behavior(): all 2x5x5 argument shapes; (c) races: small sets of "
+        "created?, creator invoked how often?; final tables; m daemons = one model daemon over disjoint labels); (b) behavior(): all 2x5x5 argument shapes; (c) races: small sets of "
         "threads making first calls on `single` classes on the REAL daemon under the deterministic scheduler (yield points: "
         "lock, every table access, constructor, creator), all schedules up to a preemption bound (2 quick / 3 thorough) then "
         "seeded random ones; each outcome is judged directly and compared with the model run in lock-acquisition order. "
@@ -55,44 +58,62 @@ def _pick(rng, weighted):
     return weighted[-1][0]
 
 
+CREATOR_KINDS = [("none", 40), ("callable", 20), ("callable:default", 8), ("callable:varargs", 8), ("callable:partial", 7),
+                 ("callable:class", 7), ("falsy", 10)]
+
+
+def gen_outcome(rng, truth, falsy_bias):
+    q = rng.random()
+    t = 1 if truth == "plain" else (0 if rng.random() < falsy_bias else 1)
+    e = rng.randrange(4)
+    if q < 0.07:
+        return ["rs"]
+    if q < 0.12:
+        return ["te"]                 # user code raises a TypeError of its own, every time it is run
+    if q < 0.18:
+        return ["te1", t, e]          # ... on its first run for this call only
+    if q < 0.25:
+        return ["wt", t, e]
+    return ["ok", t, e]
+
+
 def gen_history(rng):
     ncls = rng.choice([1, 1, 2, 2, 3, 4])
     classes = []
     for _ in range(ncls):
         mode = _pick(rng, [("single", 30), ("session", 30), ("percall", 22), ("default", 10), ("invalid", 8)])
-        creator = _pick(rng, [("none", 45), ("callable", 45), ("falsy", 10)])
+        creator = _pick(rng, CREATOR_KINDS)
         truth = _pick(rng, [("plain", 25), ("bool", 40), ("len", 35)])
         eq = _pick(rng, [("default", 50), ("byclass", 30), ("alleq", 20)])
         classes.append([mode, creator, truth, eq])
-    nconn = rng.choice([1, 2, 2, 3, 4])
+    ndaemon = rng.choice([1, 1, 1, 2, 2, 3])
+    nconn = max(ndaemon, rng.choice([1, 2, 2, 3, 4]))
     n = rng.choice([1, 2, 4, 6, 9, 14, 24])
     falsy_bias = rng.choice([0.0, 0.3, 0.6, 1.0])
+    restart = rng.choice([0.0, 0.0, 0.05, 0.12])          # a daemon is shut down and replaced by a new one
     events = []
     last = None
     for _ in range(n):
         r = rng.random()
-        if r < 0.07:
+        if r < restart:
+            events.append(["D", rng.randrange(ndaemon)])
+        elif r < restart + 0.07:
             events.append(["O", rng.randrange(nconn), 1 if rng.random() < 0.2 else 0])
-        elif r < 0.17:
+        elif r < restart + 0.17:
             events.append(["X", rng.randrange(nconn)])
         else:
             if last is not None and rng.random() < 0.35:
                 c, k = last                                   # hit the same slot again: the re-use path
+            elif last is not None and ndaemon > 1 and rng.random() < 0.3:
+                c, k = rng.randrange(nconn), last[1]          # the same class through (probably) another daemon
             else:
                 c, k = rng.randrange(nconn), rng.randrange(ncls)
             last = (c, k)
-            q = rng.random()
-            truth = classes[k][2]
-            t = 1 if truth == "plain" else (0 if rng.random() < falsy_bias else 1)
-            e = rng.randrange(4)
-            if q < 0.09:
-                o = ["rs"]
-            elif q < 0.17:
-                o = ["wt", t, e]
-            else:
-                o = ["ok", t, e]
-            events.append(["C", c, k, o])
-    return {"classes": classes, "nconn": nconn, "events": events, "path": "request" if rng.random() < 0.3 else "direct"}
+            events.append(["C", c, k, gen_outcome(rng, classes[k][2], falsy_bias)])
+    h = {"classes": classes, "nconn": nconn, "events": events, "path": "request" if rng.random() < 0.3 else "direct"}
+    if ndaemon > 1:
+        h["ndaemon"] = ndaemon
+    return h
 
 
 RACE_PROGRAMS = [
@@ -104,12 +125,14 @@ RACE_PROGRAMS = [
     {"classes": [["none", "plain", "default"], ["callable", "len", "default"]],
      "threads": [[[0, ["ok", 1, 0]], [1, ["ok", 0, 0]]], [[1, ["ok", 0, 1]], [0, ["ok", 1, 1]]]]},
     {"classes": [["falsy", "bool", "default"]], "threads": [[[0, ["ok", 0, 0]], [0, ["ok", 1, 0]]], [[0, ["ok", 1, 1]]]]},
+    {"classes": [["callable:default", "plain", "default"]], "threads": [[[0, ["te1", 1, 0]]], [[0, ["ok", 1, 1]]]]},
+    {"classes": [["callable:varargs", "len", "default"]], "threads": [[[0, ["te"]]], [[0, ["te1", 0, 1]]], [[0, ["ok", 0, 2]]]]},
 ]
 
 
 def gen_race(rng):
     ncls = rng.choice([1, 1, 2])
-    classes = [[_pick(rng, [("none", 45), ("callable", 45), ("falsy", 10)]), rng.choice(["plain", "bool", "len"]),
+    classes = [[_pick(rng, CREATOR_KINDS), rng.choice(["plain", "bool", "len"]),
                 rng.choice(["default", "byclass", "alleq"])] for _ in range(ncls)]
     threads = []
     for _ in range(rng.choice([2, 2, 3])):
@@ -118,7 +141,8 @@ def gen_race(rng):
             k = rng.randrange(ncls)
             q = rng.random()
             t = 1 if classes[k][1] == "plain" else rng.choice([0, 1])
-            o = ["rs"] if q < 0.15 else ["wt", t, rng.randrange(3)] if q < 0.25 else ["ok", t, rng.randrange(3)]
+            o = (["rs"] if q < 0.1 else ["te"] if q < 0.15 else ["te1", t, rng.randrange(3)] if q < 0.2
+                 else ["wt", t, rng.randrange(3)] if q < 0.28 else ["ok", t, rng.randrange(3)])
             calls.append([k, o])
         threads.append(calls)
     return {"classes": classes, "threads": threads}
@@ -173,6 +197,11 @@ def _histories(ctx, n, rng_name, with_model):
             ctx.count("creator:" + cl[1])
             ctx.count("truth:" + cl[2])
         ctx.count("path:" + hist.get("path", "direct"))
+        ctx.count("daemons:%d" % hist.get("ndaemon", 1))
+        ctx.count("daemon-restarts", sum(1 for ev in hist["events"] if ev[0] == "D"))
+        for ev in hist["events"]:
+            if ev[0] == "C":
+                ctx.count("outcome:" + ev[3][0])
         for o in obs:
             ctx.count("obs:" + (("S-created" if o[4] else "S-reused") if o[0] == "S" else o[0]))
         line = R.hist_line(hist)
@@ -181,7 +210,7 @@ def _histories(ctx, n, rng_name, with_model):
         if reused >= 1 or made >= 2:
             ctx.nontriv(line + hist.get("path", ""))
         if not with_model:
-            bad = R.judge_history(hist, obs)
+            bad = R.judge_history(run.flat, obs)
             if bad:
                 ctx.fail(bad[0], ("corpus witness %s: " % name if name else "") + bad[1] + "; history " +
                          json.dumps(hist), {"kind": "hist", **hist})
@@ -356,9 +385,9 @@ def replay(ctx, case):
             return 1 if bad else 0
         if "events" in c:
             run, obs = run_history(c)
-            print("history", json.dumps({k: c[k] for k in ("classes", "nconn", "events", "path") if k in c}))
+            print("history", json.dumps({k: c[k] for k in ("classes", "nconn", "ndaemon", "events", "path") if k in c}))
             print("observed", run.canonical())
-            bad = R.judge_history(c, obs)
+            bad = R.judge_history(run.flat, obs)
             print(("VIOLATION reproduced: %s — %s" % bad) if bad else "not reproduced (the property holds on this history)")
             return 1 if bad else 0
         print(json.dumps(case.get("no_longer_checks")))
